@@ -66,6 +66,12 @@ func DriveC13(t *tr.W, thorough bool) {
 		{"other-ip-direct", []string{"10.0.0.5:18444", "10.0.0.6:18444"}, []Behaviour{honest(), honest()}, "direct"},
 		{"same-ip-lie", []string{"10.0.0.5:18444", "10.0.0.5:18445", "10.0.0.7:18444"},
 			[]Behaviour{{Kind: "liarCFHeaders", H: 1 << 20, Variant: "inconsistent"}, honest(), honest()}, "lie"},
+		// a peer offering exactly one of WITNESS / CF (both variants, first and second to connect): it must be
+		// banned, dropped and never asked anything
+		{"lacks-cf-first", nil, []Behaviour{{Kind: "noServices", Variant: "cf"}, honest()}, "services"},
+		{"lacks-witness-first", nil, []Behaviour{{Kind: "noServices", Variant: "witness"}, honest()}, "services"},
+		{"lacks-cf-second", nil, []Behaviour{honest(), {Kind: "noServices", Variant: "cf"}}, "services"},
+		{"lacks-witness-second", nil, []Behaviour{honest(), {Kind: "noServices", Variant: "witness"}}, "services"},
 	}
 	for _, v := range vs {
 		l := 20 + rng.Intn(20)
@@ -86,7 +92,22 @@ func DriveC13(t *tr.W, thorough bool) {
 			continue
 		}
 		allIn := func(o Obs) bool { return s.converged(o) && len(o.Conn) == len(s.Peers) }
-		ok := s.waitFor(6*time.Second, allIn)
+		if v.how == "services" {
+			// every peer has had its turn, the full-service peers are in, the others banned and out
+			allIn = func(o Obs) bool {
+				select {
+				case <-s.allCon:
+				default:
+					return false
+				}
+				return s.settled(o)
+			}
+		}
+		budget := 6 * time.Second
+		if v.how == "services" {
+			budget = 3 * time.Second
+		}
+		ok := s.waitFor(budget, allIn)
 		t.Op("waitsync", map[bool]string{true: "ok", false: "timeout"}[ok])
 		switch v.how {
 		case "direct":
@@ -109,12 +130,20 @@ func DriveC13(t *tr.W, thorough bool) {
 			return len(o.Banned) > 0
 		}
 		s.waitFor(1500*time.Millisecond, clean)
+		if v.how == "services" {
+			// give a kept peer the time to be asked something
+			s.waitFor(300*time.Millisecond, func(Obs) bool { return false })
+		}
 		o := s.Observe()
 		t.Op("after", o.String())
+		if v.how == "services" {
+			s.askedLines()
+		}
 		t.Hit("c13." + v.how)
 		stopLine(t, s, v.name)
 		s.Cleanup()
 	}
+	driveC13Spellings(t, rng)
 }
 
 // ---------------------------------------------------------------- C15 ----
